@@ -2013,9 +2013,14 @@ def witnesses():
         # NPTS: + on a logging monitor drops npts
         lm = LoggingMonitor(1, os.path.join(tmp, "c20w_npts.txt"), npts=(1, 1)); lm([1.0, 2.0, 3.0, 4.0], 1.0)
         sm = lm + lm[0:0]
+        def safe(f):
+            try:
+                return f()
+            except Exception as exc:
+                return exc
         if sm._npts != (1, 1):
             out.append(Finding("monitor", KEY_NPTS, "lm = LoggingMonitor(1, f, npts=(1, 1)) after ([1.0, 2.0, 3.0, 4.0], 1.0): (lm + lm[0:0])._npts == %r, .pos == %r (lm.pos == %r)"
-                               % (sm._npts, sm.pos, lm.pos), {"witness": "NPTS"}))
+                               % (sm._npts, safe(lambda: sm.pos), safe(lambda: lm.pos)), {"witness": "NPTS"}))
         # RAG: records of different dimension in a support file
         m = Monitor(); m([1.0, 2.0, 3.0], 1.0); m([4.0, 5.0], 2.0)
         path = os.path.join(tmp, "c20w_rag.py")
